@@ -348,6 +348,8 @@ def stmt_ops(s):
                 return ["MBufRange"]
         if name == "reset" and not args and obj is not None and param_ref(obj):
             return ["MOtherReset"]
+        if name == "reset" and not args and obj is not None and is_this(obj):
+            return ["MSelfReset"]
         if name == "swap" and len(args) == 1 and this_member(args[0]) == "dataBuf" and obj is not None and \
                 strip(obj).get("kind") in ("CXXTemporaryObjectExpr", "CXXConstructExpr") and mentions_param(obj):
             return ["MBufRange"]
